@@ -660,7 +660,14 @@ class TemplateIndex:
         self.funcs = {fid: inline_fragments(idx, fi, keep=ANCHOR_HELPERS) for fid, fi in self.funcs.items()}
         # `return A if T else B` (what a dispatching helper becomes once its branches are expressions): one return per branch, so that each is read under its test
         from .strval import _LiftIfExp
+        from .inline import _HoistIfExp, _SimplifyIfExp
         import copy as _copy
+        # a conditional piece inside an f-string / concatenation makes the whole text conditional - also in functions in which nothing was expanded
+        for fid, fi in list(self.funcs.items()):
+            if isinstance(fi.node, ast.FunctionDef) and any(isinstance(v_, ast.FormattedValue) and isinstance(v_.value, ast.IfExp) for v_ in ast.walk(fi.node)):
+                node = _SimplifyIfExp().visit(_HoistIfExp().visit(_copy.deepcopy(fi.node)))
+                ast.fix_missing_locations(node)
+                self.funcs[fid] = FuncInfo(fi.module, fi.qualname, node, fi.cls, fi.kind)
         for fid, fi in list(self.funcs.items()):
             if isinstance(fi.node, ast.FunctionDef) and any(isinstance(r, ast.Return) and isinstance(r.value, ast.IfExp) for r in ast.walk(fi.node)):
                 node = _LiftIfExp().visit(_copy.deepcopy(fi.node))
